@@ -24,6 +24,7 @@ func init() {
 	vrt.Register("C06_string_chains", StringChains)
 	vrt.Register("C06_string_plus_number", StringPlusNumber)
 	vrt.Register("C06_literals", Literals)
+	vrt.Register("C06_node_evaluated_again", NodeEvaluatedAgain)
 }
 
 var binops = []string{"+", "-", "*", "/", "<", "<=", ">", ">=", "==", "!=", "&&", "||", "~="}
@@ -695,4 +696,45 @@ func subst(f, l string) string {
 		}
 	}
 	return out
+}
+
+// the value of an operator depends on its operands at that evaluation only: the
+// same expression node evaluated again (next loop pass, next call of the function
+// it stands in) with other operands gives the other value
+func NodeEvaluatedAgain() {
+	a, x, y := vrt.Int(), vrt.Int(), vrt.Int()
+	ctx := plush.NewContext()
+	ctx.Set("a", a)
+	ctx.Set("vs", []int{x, y})
+	ctx.Set("s", "abc")
+	ctx.Set("ps", []string{"^a", "^b", "c$", "^$"})
+	ctx.Set("ws", []string{"abc", "b", ""})
+	ops := []string{"+", "-", "*", "<", "<=", ">", ">=", "==", "!="}
+	var in, want string
+	switch vrt.Choice(5) {
+	case 0:
+		op := ops[vrt.Choice(len(ops))]
+		in = "<%= for (v) in vs { %>[<%= a " + op + " v %>]<% } %>"
+		r1, _ := intRef(op, a, x)
+		r2, _ := intRef(op, a, y)
+		want = "[" + r1 + "][" + r2 + "]"
+	case 1:
+		op := ops[vrt.Choice(len(ops))]
+		in = "<% let f = fn(v) { return a " + op + " v } %>[<%= f(vs[0]) %>][<%= f(vs[1]) %>]"
+		r1, _ := intRef(op, a, x)
+		r2, _ := intRef(op, a, y)
+		want = "[" + r1 + "][" + r2 + "]"
+	case 2:
+		in, want = "<%= for (p) in ps { %>[<%= s ~= p %>]<% } %>", "[true][false][true][false]"
+	case 3:
+		in, want = "<%= for (w) in ws { %>[<%= w ~= \"^a\" %>]<% } %>", "[true][false][false]"
+	default:
+		in, want = "<% let m = fn(p) { return s ~= p } %>[<%= m(\"^a\") %>][<%= m(\"z\") %>][<%= m(ps[2]) %>]", "[true][false][true]"
+	}
+	got, err := plush.Render(in, ctx)
+	vrt.Note("input", in)
+	vrt.Note("got", got)
+	vrt.Assert(err == nil, "the program renders")
+	vrt.Assert(got == want, "an operator evaluated again with other operands gives the value for those operands")
+	vrt.Cover("done")
 }
